@@ -42,6 +42,7 @@ type recW struct {
 }
 
 func (w *recW) Write(b []byte) (int, error) {
+	vOut(string(b)) // observation for the engine-vs-native selftest
 	ev := vEvent{W: w.id, P: string(b)}
 	if w.r.faults != nil && w.r.faults(w.id) {
 		ev.Failed = true
@@ -59,6 +60,7 @@ type recLW struct {
 }
 
 func (w *recLW) Write(b []byte) (int, error) {
+	vOut(string(b))
 	ev := vEvent{W: w.id, P: string(b)}
 	if w.r.faults != nil && w.r.faults(w.id) {
 		ev.Failed = true
